@@ -7,7 +7,8 @@ REPO = os.environ.get("VERIF_REPO", "/repo")
 SPEC = os.path.join(VERIF, "spec")
 HARNESS = os.path.join(VERIF, "harness")
 OUT = os.path.join(VERIF, "out")
-EVID = os.path.join(VERIF, "evidence")
+# seeded-change runs (selftest/mutant.py) write their evidence elsewhere: /verif/evidence only ever describes /repo as it is
+EVID = os.environ.get("VERIF_EVIDENCE_DIR") or os.path.join(VERIF, "evidence")
 BIN = os.path.join(HARNESS, "target", "release", "rsverif")
 JAVA_OPTS = "-Xss1g -Xmx6g -XX:+UseParallelGC -XX:ParallelGCThreads=4"     # multi-worker bounded models
 JAVA_OPTS_1 = "-Xss1g -Xmx4g -XX:+UseSerialGC"                              # single-worker trace validators (measured: 8x faster than the default collector here)
@@ -81,6 +82,10 @@ def build_harness(profile="release"):
 
 def harness(args, timeout=3600, binpath=None, env=None):
     """Runs the harness; returns (rc, parsed-last-json-line-or-None, raw output)."""
+    # worker threads of the harness get the stack a main thread has (a library that keeps more scratch on the stack must
+    # not crash in the harness only)
+    env = dict(env or {})
+    env.setdefault("RUST_MIN_STACK", str(64 << 20))
     rc, out, dt = sh([binpath or BIN] + [str(a) for a in args], cwd=VERIF, timeout=timeout, env=env)
     info = None
     for line in reversed(out.strip().splitlines()):
@@ -342,8 +347,17 @@ def match_finding(prop, event):
     return None
 
 
+def repo_state():
+    """Which tree the run was made against: path, HEAD, and whether the working tree had uncommitted changes."""
+    rc1, head, _ = sh(["git", "-C", REPO, "rev-parse", "HEAD"])
+    rc2, st, _ = sh(["git", "-C", REPO, "status", "--porcelain", "--untracked-files=no"])
+    return {"path": REPO, "head": head.strip() if rc1 == 0 else "?", "uncommitted_changes": bool(st.strip()) if rc2 == 0 else None}
+
+
 def write_evidence(prop, tier, seed, coverage, assumptions, wall, violations):
     os.makedirs(EVID, exist_ok=True)
+    coverage = dict(coverage)
+    coverage["repo"] = repo_state()
     ev = {"property_id": prop, "tier": tier, "seed": int(seed), "level": "model_checking",
           "coverage": coverage, "assumptions": assumptions, "wall_s": round(wall, 2),
           "violations": int(violations)}
